@@ -17,7 +17,7 @@ PURE_RE = re.compile(r'''(
     ::from_bytes$|::from_bytes_unchecked$|::from_str$|::parse$|::split$|::peekable$|::map$|::filter_map$|::filter$|::copied$|::cloned$|
     ::into_iter$|::new_display$|::new_debug$|Arguments::<'a>::new$|Arguments::<'a>::from_str$|::default$|::new$|::from$|::into$|
     ::starts_with$|::ends_with$|::eq_ignore_ascii_case$|::chars$|::bytes$|::rev$|::enumerate$|::zip$|::skip$|::take$|::chain$|
-    ::as_slice$|::as_mut_slice$|::into_boxed_slice$|::into_vec$|::unwrap_or$|::with_capacity$|::count$|::position$|::find$|
+    ::as_slice$|::as_mut_slice$|::into_boxed_slice$|::into_vec$|::unwrap_or$|::with_capacity$|::count$|::position$|::find$|::flat_map$|iter::once$|sources::once::once$|
     ::min$|::max$|::try_from$|::try_into$|::len_utf8$|::is_char_boundary$|::partition_point$
 )''', re.X)
 
